@@ -103,27 +103,37 @@ OutsHw(h, io, i) ==
 (* <<T at the start of the instruction, port, value>> of every OUT           *)
 (* (OutStampedAtInstructionStart) when cfg.log holds; n counts instructions. *)
 (* A 48K snapshot has no port hardware at all: IN reads the idle bus.        *)
+\* one instruction (plus the interrupt it may be followed by)
+Step1(x, cfg) ==
+  LET s == [r |-> x.r, ov |-> View(x.m), inv |-> IF x.m.is128 THEN 255 ELSE -1,
+            frame |-> Frame(x.m.is128), ia |-> IntActive(x.m.is128), tA |-> -1]
+      st == StepInt(s, cfg.ints)
+      m1 == Store(x.m, st.wr)
+      h == IF x.m.is128 /\ st.io # <<>> THEN OutsHw([m |-> m1, fffd |-> x.fffd, ay |-> x.ay], st.io, 1)
+           ELSE [m |-> m1, fffd |-> x.fffd, ay |-> x.ay]
+      outs == SelectSeq(st.io, LAMBDA e : e[1] = "o")
+      log2 == IF cfg.log /\ outs # <<>> THEN x.log \o [i \in 1..Len(outs) |-> <<x.r[rT], outs[i][2], outs[i][3]>>] ELSE x.log
+  IN [r |-> st.r, m |-> h.m, fffd |-> h.fffd, ay |-> h.ay, log |-> log2, n |-> x.n + 1,
+      ok |-> x.ok /\ ~Aliased(h.m), in |-> x.in \/ (x.m.is128 /\ \E i \in 1..Len(st.io) : st.io[i][1] = "i"),
+      done |-> st.r[rPC] = cfg.stop]
+
+\* (TLC evaluates an operator body in the caller's context, so the cost of a step grows with the recursion depth:
+\* the iteration is split into chunks to keep the depth near the square root of the number of instructions)
+RECURSIVE RunChunk(_, _, _)
+RunChunk(x, cfg, k) == IF k = 0 \/ x.done THEN x ELSE RunChunk(Step1(x, cfg), cfg, k - 1)
+
+ChunkLen == 24
+MaxChunks == 250
+
 RECURSIVE RunFrom(_, _, _)
 RunFrom(x, cfg, k) ==
-  IF k = 0 THEN [x EXCEPT !.ok = FALSE]
-  ELSE
-    LET s == [r |-> x.r, ov |-> View(x.m), inv |-> IF x.m.is128 THEN 255 ELSE -1,
-              frame |-> Frame(x.m.is128), ia |-> IntActive(x.m.is128), tA |-> -1]
-        st == StepInt(s, cfg.ints)
-        m1 == Store(x.m, st.wr)
-        h == IF x.m.is128 /\ st.io # <<>> THEN OutsHw([m |-> m1, fffd |-> x.fffd, ay |-> x.ay], st.io, 1)
-             ELSE [m |-> m1, fffd |-> x.fffd, ay |-> x.ay]
-        outs == SelectSeq(st.io, LAMBDA e : e[1] = "o")
-        log2 == IF cfg.log /\ outs # <<>> THEN x.log \o [i \in 1..Len(outs) |-> <<x.r[rT], outs[i][2], outs[i][3]>>] ELSE x.log
-        x2 == [r |-> st.r, m |-> h.m, fffd |-> h.fffd, ay |-> h.ay, log |-> log2, n |-> x.n + 1,
-               ok |-> x.ok /\ ~Aliased(h.m), in |-> x.in \/ (x.m.is128 /\ \E i \in 1..Len(st.io) : st.io[i][1] = "i")]
-    IN IF st.r[rPC] = cfg.stop THEN x2 ELSE RunFrom(x2, cfg, k - 1)
-
-MaxSteps == 6000
+  LET y == RunChunk(x, cfg, ChunkLen)
+  IN IF y.done THEN y ELSE IF k = 0 THEN [y EXCEPT !.ok = FALSE] ELSE RunFrom(y, cfg, k - 1)
 
 Run(r, m, fffd, ay, start, stop, ints, log) ==
-  RunFrom([r |-> [r EXCEPT ![rPC] = start], m |-> m, fffd |-> fffd, ay |-> ay, log |-> <<>>, n |-> 0, ok |-> TRUE, in |-> FALSE],
-          [stop |-> stop, ints |-> ints, log |-> log], MaxSteps)
+  RunFrom([r |-> [r EXCEPT ![rPC] = start], m |-> m, fffd |-> fffd, ay |-> ay, log |-> <<>>, n |-> 0, ok |-> TRUE, in |-> FALSE,
+           done |-> FALSE],
+          [stop |-> stop, ints |-> ints, log |-> log], MaxChunks)
 
 -----------------------------------------------------------------------------
 (* The sim dictionary *)
